@@ -163,3 +163,84 @@ def site_of(ev, L):
         return ev.loc(L.site)
     except Exception:
         return None
+
+
+def record(ev, t, name):
+    """{field: value} if `t` is the record `name` built on this path (by literal, helper or later field stores), else None."""
+    t = strip(ev, t)
+    if isinstance(t, tuple) and t and t[0] == "agg" and t[2] == name and len(t) > 4 and len(t[4]) == len(t[3]):
+        return dict(zip(t[4], t[3]))
+    return None
+
+
+def returns(ends):
+    return [e for e in ends if e.kind == "return"]
+
+
+BENIGN_STD = frozenset(["deref", "deref_mut", "borrow", "borrow_mut", "as_ref", "as_mut", "into", "from", "clone", "as_deref", "as_deref_mut", "drop", "drop_in_place"])
+
+
+def forwards_once(ev, ends, pred):
+    """Every returning way makes exactly one call that satisfies pred(callee, event), outside any loop, and no other call
+    than the standard library's reference conversions.  Returns (ok, [description of what was found per way])."""
+    seen = []
+    ok = bool(returns(ends))
+    for e in returns(ends):
+        hit = 0
+        other = []
+        for x in e.path.events:
+            if x[0] == "loop":
+                inner = [y for it in x[1].iters for y in calls_in(it.path.events, lambda c: True, deep=True)]
+                if inner:
+                    other.append("a loop calling %s" % sorted(set(y[2].name for y in inner)))
+            elif x[0] == "call":
+                if pred(x[2], x):
+                    hit += 1
+                elif x[2].local or x[2].name not in BENIGN_STD:
+                    other.append(x[2].short() if hasattr(x[2], "short") else x[2].name)
+        seen.append((hit, other))
+        if hit != 1 or other:
+            ok = False
+    return ok, seen
+
+
+def origins(ev, t, crate="shred"):
+    """Where the value of a term comes from: the set of its leaves, with the outermost in-crate field access
+    ('field', adt, name), parameters ('param', i), loop elements and the like; constants contribute nothing."""
+    out = set()
+
+    def go(t):
+        if not (isinstance(t, tuple) and t):
+            return
+        k = t[0]
+        if k in ("int", "const", "fnref", "unit"):
+            return
+        if k == "field":
+            if t[3] and t[3].startswith(crate + "::"):
+                out.add(("field", t[3], t[2]))
+            else:
+                go(t[1])
+        elif k == "cast":
+            go(t[2])
+        elif k in ("variant", "proj"):
+            go(t[1])
+        elif k == "index":
+            go(t[1])
+        elif k == "call":
+            for a in t[2]:
+                go(a)
+        elif k == "agg":
+            for a in t[3]:
+                go(a)
+        elif k in ("bin",):
+            go(t[2])
+            go(t[3])
+        elif k == "un":
+            go(t[2])
+        elif k == "param":
+            out.add(t)
+        else:
+            out.add((k,))
+
+    go(t)
+    return out
